@@ -354,6 +354,15 @@ func Edits(d *Dialect) []Edit {
 			c, _ := checkOf(T(s, "t"), "ck_a")
 			c.Expr = "a > 1"
 		}, []string{mt("ModifyCheck(ck_a)")}},
+		// a named check is modified while an unnamed check with the named one's old expression is
+		// declared in front of it: each desired check has its own counterpart (or none).
+		{"modify_check_behind_unnamed_twin_of_its_old_self", []string{"check:ck_a", "check:unnamed", "check:"}, func(s *schema.Schema) {
+			t := T(s, "t")
+			c, i := checkOf(t, "ck_a")
+			twin := schema.NewCheck().SetExpr(c.Expr)
+			c.Expr = "a > 1"
+			t.Attrs = append(t.Attrs[:i:i], append([]schema.Attr{twin}, t.Attrs[i:]...)...)
+		}, []string{mt("ModifyCheck(ck_a)"), mt("AddCheck()")}},
 		{"check_renamed", []string{"check:ck_a"}, func(s *schema.Schema) {
 			c, _ := checkOf(T(s, "t"), "ck_a")
 			c.Name = "ck_a2"
